@@ -97,7 +97,7 @@ PROPS = {
                 technique='exact (<=>) and per-conjunct postconditions on LayoutTrait::validate_public_input / verify_public_input of each layout, field-division lemma lemma_builtin_checked; per-layout oracles generated from the layout constants (vf/gen_layout_mid.py)',
                 note='Dynamic layout: validate_public_input is under contract in the direction accept ==> rules (dynamic parameters present, step count x 16 x cpu_component_step = trace length as integers, segment count, layout code, range-check bounds, and per builtin: an unused builtin has an empty segment, a used one has a non-zero row ratio and a whole number of instances not exceeding floor(trace_length/row_ratio)); its body is verified as a free function with the same tokens (the trait-level <=> needs the 3.4 k-line generated check_asserts, which is assumed: a single query beyond the resource limit, probes/dynamic_check_asserts_template.rs). A mutation that makes this function\'s false postcondition hard to refute shows up as UNDECIDED (exit 2), not as a violation. The iterator chains of verify_public_input enter through hoisting rules (A-iter).'),
     'C15': dict(quick=['core'], thorough=['core'],
-                claim='get_diluted_product is proved (i) to compute the log-step doubling recurrence (p,q,x,diff_x) after n_bits-1 steps and to terminate, and (ii) by a machine-checked lemma chain to equal r_(2^n_bits) of the DEFINING recurrence r_1 = 1, r_(j+1) = r_j*(1+z*u_j) + alpha*u_j^2 over all 2^n_bits diluted values (u_j = Dilute(j) - Dilute(j-1), digit weight 2^spacing), for every n_bits in 1..=64, spacing, z, alpha: integer identity for every base (periodicity of u, block composition), then reduction mod P. Page::get_product, get_continuous_pages_product, get_public_memory_product(_ratio) are proved equal to z^size / (product over all public cells of (z - (addr + alpha*value)), page products for continuous pages, times the padding factor to the power size - total). CALL SITES: in the eval_composition_polynomial wrapper of each of the six static layouts the two boundary values handed to the constraint evaluator are proved to be memory_ratio_spec over the layout\'s memory column (trace length / PUBLIC_MEMORY_STEP) at the memory interaction elements, and diluted_spec(16, 4, z, alpha) at the diluted interaction elements (the statement\'s (n_bits, spacing); dex and small have no diluted check).',
+                claim='get_diluted_product is proved (i) to compute the log-step doubling recurrence (p,q,x,diff_x) after n_bits-1 steps and to terminate, and (ii) by a machine-checked lemma chain to equal r_(2^n_bits) of the DEFINING recurrence r_1 = 1, r_(j+1) = r_j*(1+z*u_j) + alpha*u_j^2 over all 2^n_bits diluted values (u_j = Dilute(j) - Dilute(j-1), digit weight 2^spacing), for every n_bits in 1..=64, spacing, z, alpha: integer identity for every base (periodicity of u, block composition), then reduction mod P. Page::get_product, get_continuous_pages_product, get_public_memory_product(_ratio) are proved equal to z^size / (product over all public cells of (z - (addr + alpha*value)), page products for continuous pages, times the padding factor to the power size - total). CALL SITES: in the eval_composition_polynomial wrapper of each of the six static layouts the two boundary values handed to the constraint evaluator are proved to be memory_ratio_spec over the layout\'s memory column (trace length / PUBLIC_MEMORY_STEP) at the memory interaction elements, and diluted_spec(16, 4, z, alpha) at the diluted interaction elements (the statement\'s (n_bits, spacing); dex and small have no diluted check); the same two assertions hold in the dynamic layout\'s wrapper (memory column = (trace length / memory_units_row_ratio) / 8; body verified as a free function).',
                 technique='loop invariants on Page::get_product, get_continuous_pages_product, get_diluted_product; functional postconditions on the memory product functions; verified lemmas lemma_dil_shift, lemma_u_periodic, lemma_block, lemma_diluted_doubling, lemma_state, lemma_diluted_is_recurrence (templates/air/diluted_lemma.rs); labelled assertions at the call sites in the layoutmid units (vf/gen_layout_mid.py)',
                 note='The in-function assert! (total length <= column size) and the two field divisions are C18 obligations of the callers (one known finding). n_bits > 64 is outside the contract (every layout passes the constant 16).'),
     'C08': dict(quick=['core'], thorough=['core'],
@@ -170,9 +170,8 @@ PROPS['C11']['thorough'] = list(dict.fromkeys(PROPS['C11']['thorough'] + _LIGHT)
 PROPS['C18']['quick'] = list(dict.fromkeys(PROPS['C18']['quick'] + _MID))
 # C15 / C01: the eval_composition_polynomial wrapper of every static layout (call sites of the two closed-form boundary values, and
 # every other global value handed to the constraint evaluator) - the mid units contain the light units
-_MID_STATIC = [u for u in _MID if u != 'layoutmid_dynamic']
-PROPS['C15']['quick'] = ['core'] + _MID_STATIC
-PROPS['C15']['thorough'] = ['core'] + _MID_STATIC
+PROPS['C15']['quick'] = ['core'] + _MID
+PROPS['C15']['thorough'] = ['core'] + _MID
 PROPS['C01']['quick'] = ['core'] + _MID
 PROPS['C01']['thorough'] = ['core'] + _MID
 PROPS['C09']['quick'] = list(dict.fromkeys(PROPS['C09']['quick']))
